@@ -458,4 +458,52 @@ def run(ctx, prog):
                        'C09.R3): otherwise a rotation that lists a new segment between the load and the save is overwritten, and the acknowledged writes '
                        'appended to that segment are never replayed')
     _c09.manifest_rmw(ctx, prog, 'C01.R9', lm)
+
+    # ------------------------------------------------------------------ R10 a torn tail stays tolerated at every later start-up
+    ctx.rule('C01.R10', 'a frame cut short by a crash is tolerated at EVERY later start-up, not only the first: each start-up appends a new segment to the MANIFEST, '
+                        'so the torn segment soon is no longer the last one, and nothing on disk tells a torn tail from a truncation (segments are not sealed). '
+                        'Therefore no refusal of recover() may depend on state that WalReader::read_all records on its end-of-file exits (today it records '
+                        'none). The opposite demand of C13 (refuse a truncated non-newest segment) is listed there as a known finding for exactly this reason')
+    ra = ctx.body('C01.R10', 'WalReader::read_all')
+    rec10 = ctx.body('C01.R10', 'HnswBackend::recover_with_hnsw_params_and_mode')
+    if ra is not None and rec10 is not None:
+        rav = flow.Origin(ra, stop_at_vars=True)
+        eof = [(i, tg) for i, blk in enumerate(ra.blocks) if blk['t']['k'] == 'switch' and i in ra.live_blocks() for tg, p in flow.switch_edge_predicates(ra, i, rav)
+               if re.match(r'^eq\[.*ErrorKind::UnexpectedEof.*\]$', p)]
+        ctx.floor('C01.R10', 'end-of-file exits of read_all', len(eof), 3, 'size header, payload, checksum')
+        fields = set()
+        for i, tg in eof:
+            region = ra.reach([tg]) | {tg}
+            # state written after an EOF edge and before the function returns, that is not also written on the non-EOF continuation of the same frame
+            for x in region:
+                for st in ra.blocks[x]['s']:
+                    if 'rv' in st and st['pl'].get('p'):
+                        fs = [y for y in st['pl']['p'] if isinstance(y, str) and y != '*']
+                        if fs and re.search(r'WalReader\.\w+$', fs[-1]) and ra.dominates(tg, x):
+                            fields.add(fs[-1].split('.')[-1])
+        acc = {}
+        for b in prog.bodies.values():
+            if '::WalReader::' in b.id and b.kind in ('Fn', 'AssocFn'):
+                r_ = flow.render(flow.Origin(b).of_local(0))
+                m_ = re.match(r'^arg:self→WalReader\.(\w+)$', r_)
+                if m_ and m_.group(1) in fields:
+                    acc[b.name] = m_.group(1)
+        bad = []
+        if fields:
+            rv10 = flow.Origin(rec10, stop_at_vars=True)
+            errs = flow.err_blocks(rec10)
+            for i, blk in enumerate(rec10.blocks):
+                if blk['t']['k'] != 'switch' or i not in rec10.live_blocks():
+                    continue
+                for tg, p in flow.switch_edge_predicates(rec10, i, rv10):
+                    if any(('WalReader::%s(' % a) in p for a in acc) or any(('WalReader.%s' % f_) in p for f_ in fields):
+                        # is some refusal control-dependent on this edge (reachable through it, unreachable without it)? — also as one conjunct of a condition
+                        r_wo = rec10.reach([0], avoid_edges=[(i, tg)]) | {0}
+                        dep = [e_ for e_ in errs if e_ in (rec10.reach([tg]) | {tg}) and e_ not in r_wo]
+                        if dep:
+                            bad.append('%s at %s' % (p[:80], rec10.loc_of(i)))
+        ctx.inst('C01.R10', rec10.short, 'no refusal depends on end-of-file state of the frame reader', not bad,
+                 ('read_all records %s on an end-of-file exit and recovery refuses on it (%s): the first start-up after a torn append succeeds, every later one fails '
+                  'because the torn segment is no longer the last listed' % (sorted(fields), bad[0])) if bad else
+                 'fields written on end-of-file exits: %s; refusing tests on them: none' % (sorted(fields) or 'none'))
     ctx.stat('functions_analysed', len(set(i['key'].split(' | ')[1] for i in ctx.instances)))
